@@ -107,3 +107,46 @@ def recompose(epoch, upstream, revision, omit_empty_revision=False):
     if revision is not None and not (omit_empty_revision and revision == ""):
         out += "-" + revision
     return out
+
+
+# ------------------------------------------------------------------------------------------------
+# optional cross-check of the recogniser against dpkg's own parser
+
+DPKG = "/usr/bin/dpkg"
+
+
+def _dpkg_validates(s):
+    import subprocess
+    try:
+        return subprocess.run([DPKG, "--validate-version", "--", s], stdout=subprocess.DEVNULL, stderr=subprocess.DEVNULL,
+                              env={"LC_ALL": "C", "PATH": "/usr/bin:/bin"}).returncode
+    except OSError:
+        return None
+
+
+def crosscheck_dpkg(strings, procs=16):
+    """dpkg --validate-version accepts (exit 0) exactly the strings that are valid under R2 *and* whose
+    upstream version starts with a digit (dpkg's extra rule, not part of the grammar checked here).
+    `strings` must not contain blanks (dpkg trims them).  A missing dpkg only drops the cross-check."""
+    import os
+    if not os.path.exists(DPKG):
+        return {"tool": "dpkg --validate-version", "available": False, "strings": 0, "agree": 0, "disagreements": []}
+    import multiprocessing
+    procs = max(1, min(procs, len(os.sched_getaffinity(0))))
+    pool = multiprocessing.get_context("fork").Pool(procs)
+    try:
+        rcs = pool.map(_dpkg_validates, strings, chunksize=16)
+    finally:
+        pool.terminate()
+        pool.join()
+    bad = []
+    accepted = 0
+    for s, rc in zip(strings, rcs):
+        verdict = classify(s)[0]
+        body = s[s.index(":") + 1:] if ":" in s else s
+        expect_ok = verdict is True and "0" <= body[:1] <= "9"
+        accepted += rc == 0
+        if (rc == 0) != expect_ok or rc is None:
+            bad.append((s, verdict, rc))
+    return {"tool": "dpkg --validate-version", "available": True, "strings": len(strings), "dpkg_accepts": accepted,
+            "agree": len(strings) - len(bad), "disagreements": [repr(b) for b in bad[:5]]}
